@@ -1,6 +1,8 @@
 package props
 
 import (
+	"bytes"
+	"encoding/binary"
 	"encoding/json"
 	"fmt"
 	"os"
@@ -11,6 +13,8 @@ import (
 	"exoverif/sim"
 
 	exocoreapp "github.com/ExocoreNetwork/exocore/app"
+	keytypes "github.com/ExocoreNetwork/exocore/types/keys"
+	operatortypes "github.com/ExocoreNetwork/exocore/x/operator/types"
 	"github.com/ExocoreNetwork/exocore/x/oracle"
 	tmproto "github.com/cometbft/cometbft/proto/tendermint/types"
 	sdk "github.com/cosmos/cosmos-sdk/types"
@@ -76,6 +80,9 @@ func c18Judge(m *Machine, after []int) *Violation {
 		return violation("C18.I1.export-failed", "%v", err)
 	}
 	s1 := c1.Snap(c1.CommittedCtx(), c18Modules...)
+	c18StaleReverseLookup = makeStaleReverseLookup(c1)
+	c18ValsetKeyReplacement = makeValsetKeyReplacement(c1)
+	c18ValsetExcluded = false
 	var allStoreViolations *Violation
 	for _, mod := range c18Modules {
 		d0 := sim.Diff(sim.Snapshot{mod: filterDerived(mod, s1[mod])}, sim.Snapshot{mod: filterDerived(mod, s2[mod])})
@@ -116,11 +123,17 @@ func c18Judge(m *Machine, after []int) *Violation {
 	}
 	// (c) exporting again yields the same document
 	for _, mod := range c18Modules {
+		if mod == "dogfood" && c18ValsetExcluded {
+			continue // listed finding: the validator list is exported with other keys, in another order
+		}
 		if string(state1[mod]) != string(state2[mod]) {
 			return violation("C18.I3.reexport."+mod, "second export of %s differs from the first: %s", mod, firstJSONDiff(state1[mod], state2[mod]))
 		}
 	}
 	_ = mem1
+	if c18ValsetExcluded {
+		return nil
+	}
 	// (d) both chains behave alike afterwards. Only one application can be live per process
 	// (oracle singletons), so the original chain is replayed block by block with a restart-like
 	// switch: run the follow-up blocks on the re-imported chain first, then on the original.
@@ -239,6 +252,13 @@ func filterDerived(mod string, kvs []sim.KVPair) []sim.KVPair {
 	return out
 }
 
+func b2i(b bool) int {
+	if b {
+		return 1
+	}
+	return 0
+}
+
 func allZero(b []byte) bool {
 	for _, x := range b {
 		if x != 0 {
@@ -255,6 +275,17 @@ func firstJSONDiff(a, b json.RawMessage) string {
 	}
 	for _, k := range sortedKeys(x) {
 		if string(x[k]) != string(y[k]) {
+			var xs, ys []json.RawMessage
+			if json.Unmarshal(x[k], &xs) == nil && json.Unmarshal(y[k], &ys) == nil {
+				if len(xs) != len(ys) {
+					return fmt.Sprintf("field %q: %d vs %d elements; first %.600s  vs  second %.600s", k, len(xs), len(ys), x[k], y[k])
+				}
+				for i := range xs {
+					if string(xs[i]) != string(ys[i]) {
+						return fmt.Sprintf("field %q element %d: %.400s  vs  %.400s", k, i, xs[i], ys[i])
+					}
+				}
+			}
 			return fmt.Sprintf("field %q: %.300s  vs  %.300s", k, x[k], y[k])
 		}
 	}
@@ -280,7 +311,7 @@ func TestC18(t *testing.T) {
 	defer finish(t, prop)
 	st := getStats(prop)
 	st.Rule = "rapid-generated histories (restaking, key management, oracle rounds, fees) are stopped at an arbitrary height; the exported genesis of assets, delegation, operator, dogfood, epochs, oracle, exomint and feedistribution must validate, a fresh chain initialised from it must have byte-identical stores for these modules, export again the same document, and behave identically over the following blocks (store digests and validator updates per block until queues drain); " +
-		"non-trivial = export taken with a pending undelegation under hold, a pending opt-out or key pruning, and an open oracle round; distinct = hash of the (kind, outcome) sequence"
+		"non-trivial = export taken with at least two of: a pending undelegation under hold, a pending opt-out or key replacement, an open oracle round; distinct = hash of the (kind, outcome) sequence"
 	if f := os.Getenv("VERIF_REPLAY"); f != "" {
 		var cf CaseFile
 		var ex c18Extra
@@ -389,7 +420,7 @@ func TestC18(t *testing.T) {
 		if openRound {
 			st.Labels["export-with-open-oracle-round"]++
 		}
-		if pendingHold && pendingQueue && openRound {
+		if b2i(pendingHold)+b2i(pendingQueue)+b2i(openRound) >= 2 {
 			st.NonTrivial[shapeOf(m)] = true
 			if len(st.Samples) < 2 {
 				b, _ := json.Marshal(cf)
@@ -406,11 +437,86 @@ var c18NoExclusions bool
 // c18KeyKnown: does a differing store key belong to a listed finding that still reproduces?
 func c18KeyKnown(mod string, e sim.DiffEntry) string {
 	for name, match := range knownMatch["C18"] {
-		if strings.HasPrefix(name, "C18.I2.store."+mod+"/") && match != "" && (match == "*" || strings.Contains(string(e.Key), match)) {
+		if !strings.HasPrefix(name, "C18.I2.store."+mod+"/") || match == "" {
+			continue
+		}
+		switch {
+		case match == "*", match == "fn:staleReverseLookup" && c18StaleReverseLookup != nil && c18StaleReverseLookup(e):
+			return name
+		case match == "fn:valsetKeyReplacement" && c18ValsetKeyReplacement != nil && c18ValsetKeyReplacement(e):
+			c18ValsetExcluded = true
+			return name
+		case !strings.HasPrefix(match, "fn:") && strings.Contains(string(e.Key), match):
 			return name
 		}
 	}
 	return ""
+}
+
+// c18ValsetKeyReplacement is set by c18Judge for the chain under judgement: is the differing key
+// a dogfood validator entry of an operator whose key replacement is pending (previous key still
+// stored): the old key's entry on the original chain only, or the new key's entry on the
+// re-imported chain only?
+var c18ValsetKeyReplacement func(e sim.DiffEntry) bool
+
+// c18ValsetExcluded records that the case under judgement hit that finding: its follow-up
+// validator updates necessarily differ, so the behaviour comparison is skipped.
+var c18ValsetExcluded bool
+
+func makeValsetKeyReplacement(c *sim.Chain) func(e sim.DiffEntry) bool {
+	ctx := c.CommittedCtx()
+	oldAddrs, newAddrs := map[string]bool{}, map[string]bool{}
+	prev, err := c.App.OperatorKeeper.GetAllPrevConsKeys(ctx)
+	if err != nil {
+		return nil
+	}
+	for _, p := range prev {
+		parts := strings.Split(p.Key, "/")
+		if len(parts) != 2 {
+			continue
+		}
+		op, err := sdk.AccAddressFromBech32(parts[1])
+		if err != nil {
+			continue
+		}
+		if k := keytypes.NewWrappedConsKeyFromHex(p.ConsensusKey); k != nil {
+			oldAddrs[string(k.ToConsAddr())] = true
+		}
+		if found, cur, err := c.App.OperatorKeeper.GetOperatorConsKeyForChainID(ctx, op, parts[0]); err == nil && found {
+			newAddrs[string(cur.ToConsAddr())] = true
+		}
+	}
+	return func(e sim.DiffEntry) bool {
+		if len(e.Key) != 21 || e.Key[0] != 1 {
+			return false
+		}
+		addr := string(e.Key[1:])
+		return (e.Before != nil && e.After == nil && oldAddrs[addr]) || (e.Before == nil && e.After != nil && newAddrs[addr])
+	}
+}
+
+// c18StaleReverseLookup is set by c18Judge for the chain under judgement: is the differing key
+// the consensus-address -> operator lookup of a key that is no longer the operator's current
+// key (a replaced or removed key waiting to be pruned), present on the original chain only?
+var c18StaleReverseLookup func(e sim.DiffEntry) bool
+
+func makeStaleReverseLookup(c *sim.Chain) func(e sim.DiffEntry) bool {
+	return func(e sim.DiffEntry) bool {
+		if len(e.Key) < 9+20 || e.Key[0] != operatortypes.BytePrefixForChainIDAndConsKeyToOperator || e.Before == nil || e.After != nil {
+			return false
+		}
+		n := int(binary.BigEndian.Uint64(e.Key[1:9]))
+		if len(e.Key) != 9+n+20 {
+			return false
+		}
+		chainID := string(e.Key[9 : 9+n])
+		consAddr := e.Key[9+n:]
+		found, cur, err := c.App.OperatorKeeper.GetOperatorConsKeyForChainID(c.CommittedCtx(), sdk.AccAddress(e.Before), chainID)
+		if err != nil {
+			return false
+		}
+		return !found || !bytes.Equal(cur.ToConsAddr(), consAddr)
+	}
 }
 
 // c18Known matches a violation against the listed known findings of C18 that still reproduce.
